@@ -109,8 +109,9 @@ type apiStep struct {
 }
 
 type apiHist struct {
-	Hist  []apiStep `json:"hist"`
-	Trace bool      `json:"trace,omitempty"`
+	Hist   []apiStep `json:"hist"`
+	Cursor []int     `json:"cursor,omitempty"` // SchemaApi!Cursors: for every "Next" the position it reads (else -1)
+	Trace  bool      `json:"trace,omitempty"`
 }
 
 type heldResult struct {
